@@ -33,10 +33,11 @@ var (
 var modes = []collector.DecodingMode{collector.DecodingModeStrict, collector.DecodingModeLenientKeepUnknown, collector.DecodingModeLenientDropUnknown}
 
 type drv struct {
-	w        *vt.Writer
-	evals    int
-	dist     map[uint64]bool
-	logStore bool
+	w            *vt.Writer
+	evals        int
+	dist         map[uint64]bool
+	logStore     bool
+	measureAlloc bool
 }
 
 type sess struct {
@@ -50,6 +51,7 @@ func (d *drv) open(m collector.DecodingMode, tag string) *sess {
 		panic(err)
 	}
 	d.w.Reset(vt.Ev{"mode": string(m), "tag": tag})
+	c.MeasureAlloc = d.measureAlloc
 	return &sess{d: d, c: c}
 }
 
@@ -87,6 +89,9 @@ func (s *sess) recv(b []byte) string {
 		ev["detail"] = firstLine(o.Panic)
 	case "Hang":
 		ev["e"] = "Hang"
+	case "Alloc":
+		ev["e"] = "Alloc"
+		ev["detail"] = o.Panic
 	case "Err":
 		ev["detail"] = firstLine(fmt.Sprint(o.Err))
 	}
@@ -157,6 +162,7 @@ func main() {
 	case "c17":
 		runC17(d, r, thorough, custom)
 	case "c03":
+		d.measureAlloc = true
 		runC03(d, r, thorough, custom)
 	case "none": // registry dump only
 	default:
@@ -278,9 +284,13 @@ func runC17(d *drv, r *rand.Rand, thorough bool, custom []*entities.InfoElement)
 	kinds := []func(r *rand.Rand) slot{
 		func(*rand.Rand) slot { return slot{absv.SpecOf(kFixed), "unsigned16"} },
 		func(*rand.Rand) slot { return slot{absv.SpecOf(kVar), "string"} },
-		func(r *rand.Rand) slot { return slot{absv.Spec{ID: 900 + r.Intn(50), Len: r.Intn(9)}, "octetArray"} },                      // unknown IANA fixed
-		func(r *rand.Rand) slot { return slot{absv.Spec{ID: 1 + r.Intn(200), Len: 1 + r.Intn(8), Ent: 12345}, "octetArray"} },       // unknown enterprise fixed
-		func(r *rand.Rand) slot { return slot{absv.Spec{ID: 950 + r.Intn(20), Len: 65535, Ent: uint32(r.Intn(2)) * 54321}, "octetArray"} }, // unknown variable
+		func(r *rand.Rand) slot { return slot{absv.Spec{ID: 900 + r.Intn(50), Len: r.Intn(9)}, "octetArray"} }, // unknown IANA fixed
+		func(r *rand.Rand) slot {
+			return slot{absv.Spec{ID: 1 + r.Intn(200), Len: 1 + r.Intn(8), Ent: 12345}, "octetArray"}
+		}, // unknown enterprise fixed
+		func(r *rand.Rand) slot {
+			return slot{absv.Spec{ID: 950 + r.Intn(20), Len: 65535, Ent: uint32(r.Intn(2)) * 54321}, "octetArray"}
+		}, // unknown variable
 	}
 	run := func(slots []slot, tag string) {
 		specs := make([]absv.Spec, len(slots))
